@@ -29,6 +29,8 @@ LV_INIT = {   # LocalVariables { in_loop: .. } aggregates: body -> expected in_l
     "instruction::local_variable::LocalVariables::<'a>::from_params": "false",
     "instruction::local_variable::LocalVariables::<'a>::function_layer": "false",
     "instruction::local_variable::LocalVariables::<'a>::create_layer": "inherit",
+    # a copy of the same scope (D28 fix: Code::parse folds a statement against the scope as it was before the statement)
+    "instruction::local_variable::LocalVariables::<'a>::fork": "inherit",
 }
 
 
